@@ -44,12 +44,14 @@ func (d *defaultPacketLogger) run() {
 }
 
 func (d *defaultPacketLogger) LogRTPPacket(header *rtp.Header, payload []byte, attributes interceptor.Attributes) {
+	// The packet is formatted on the logger goroutine after the caller got its
+	// buffers back: hand over copies.
 	select {
 	case d.rtpChan <- &rtpDump{
 		attributes: attributes,
 		packet: &rtp.Packet{
-			Header:  *header,
-			Payload: payload,
+			Header:  header.Clone(),
+			Payload: append([]byte(nil), payload...),
 		},
 	}:
 	case <-d.close:
